@@ -32,6 +32,8 @@ Lemma k_ffl_src_id i x : k_ffl_src i x = x. Proof. unfold k_ffl_src. lia. Qed.
 
 Lemma k_replace_hit_eq old v : k_replace_hit old v = py_eq old v.
 Proof. reflexivity. Qed.
+Lemma k_replace_mask_spec a b c : k_replace_mask a b c = if a then b else c.
+Proof. destruct a, b, c; reflexivity. Qed.
 Lemma k_keep_unwrap_spec n b : k_keep_unwrap n b = ((n =? 1) && b)%bool. Proof. reflexivity. Qed.
 Lemma k_keep_delete_spec b : k_keep_delete b = negb b. Proof. reflexivity. Qed.
 Lemma k_name_single_spec n : k_name_single n = (n =? 1). Proof. reflexivity. Qed.
@@ -184,7 +186,7 @@ Proof. induction ss; simpl; auto. Qed.
 Theorem keep_only_exact t wrapped args ss :
   plain_args args = Some ss -> keep_model t wrapped args = Ok (keep_spec t ss).
 Proof.
-  intros Hp. unfold keep_model.
+  intros Hp. unfold keep_model, keep_gen.
   assert ((if wrapped then if k_keep_unwrap 1 true then args else [AOther]
            else if k_keep_unwrap (zlen args) false then [] else args) = args) as E.
   { rewrite !k_keep_unwrap_spec. destruct wrapped; simpl; [reflexivity|].
@@ -210,7 +212,7 @@ Theorem keep_only_alias_rejected t a b r rest :
   keep_model t false (AObj (a :: b :: r) :: rest) = Raise TypeError \/
   exists e, keep_model t false (AObj (a :: b :: r) :: rest) = Raise e.
 Proof.
-  unfold keep_model. rewrite k_keep_unwrap_spec, andb_false_r.
+  unfold keep_model, keep_gen. rewrite k_keep_unwrap_spec, andb_false_r.
   cbn [map_res colname]. rewrite k_name_single_spec.
   replace (zlen (a :: b :: r) =? 1) with false.
   2:{ symmetry. apply Z.eqb_neq. unfold zlen. cbn [List.length]. lia. }
@@ -259,6 +261,29 @@ Qed.
 Lemma map_res_ext {A B} (f g : A -> res B) l : (forall x, In x l -> f x = g x) -> map_res f l = map_res g l.
 Proof. induction l; simpl; intros H; [reflexivity|]. rewrite (H a) by auto. rewrite IHl by auto. reflexivity. Qed.
 
+(* the NumPy branch of replace (Float / Int columns), for every key, value and column: a key that is no number
+   raises TypeError (np.isnan), a value NumPy cannot store raises, otherwise exactly the cells designated by the
+   key -- the NaN cells for a NaN key, the cells equal to the key otherwise -- hold the stored value *)
+Theorem pass_numeric_exact kd old new cs : kd <> KMixed ->
+  pass kd old new cs =
+  if is_number old
+  then bind (np_store kd new) (fun x => Ok (map (fun c => if key_hits kd old c then x else c) cs))
+  else Raise TypeError.
+Proof.
+  intros Hk. assert (pass kd old new cs = pass_numeric kd old new cs) as E by (destruct kd; [congruence| |]; reflexivity).
+  rewrite E. unfold pass_numeric. destruct (is_number old); cbn [negb]; [|reflexivity].
+  destruct (np_store kd new) as [x|e]; cbn [bind]; [|reflexivity]. f_equal. apply map_ext. intros c.
+  rewrite k_replace_mask_spec. unfold key_hits. destruct kd; [congruence| |]; reflexivity.
+Qed.
+
+Definition numeric_kind (kd : kind) : bool := match kd with KMixed => false | _ => true end.
+Theorem pass_numeric_exact_b kd old new cs : numeric_kind kd = true ->
+  pass kd old new cs =
+  if is_number old
+  then bind (np_store kd new) (fun x => Ok (map (fun c => if key_hits kd old c then x else c) cs))
+  else Raise TypeError.
+Proof. intros H. apply pass_numeric_exact. intros E. subst. discriminate. Qed.
+
 Lemma pass_ok kd old new x cs :
   (kd <> KMixed -> is_number old = true /\ plain_value kd new = true) ->
   nf kd new = Ok x ->
@@ -267,9 +292,9 @@ Proof.
   intros Hn Hx. destruct kd.
   - unfold pass, pass_mixed. apply map_res_ok. intros c _. rewrite hit_mixed.
     destruct (key_hits KMixed old c); [|reflexivity]. rewrite store_mixed_spec. exact Hx.
-  - destruct Hn as [Hk Hp]; [discriminate|]. unfold pass, pass_numeric. rewrite Hk. cbn [negb].
+  - destruct Hn as [Hk Hp]; [discriminate|]. rewrite pass_numeric_exact by discriminate. rewrite Hk.
     rewrite (np_store_nf KFloat new) by (auto; discriminate). rewrite Hx. reflexivity.
-  - destruct Hn as [Hk Hp]; [discriminate|]. unfold pass, pass_numeric. rewrite Hk. cbn [negb].
+  - destruct Hn as [Hk Hp]; [discriminate|]. rewrite pass_numeric_exact by discriminate. rewrite Hk.
     rewrite (np_store_nf KInt new) by (auto; discriminate). rewrite Hx. reflexivity.
 Qed.
 
